@@ -33,7 +33,7 @@ CHECKS = {
          "Get/GetKey consistency in both directions over the whole key and value tables, no shared value, Size=len(Keys)=len(Values) and equality with the eviction model after every step, value tables small enough to force every collision kind, coarsened key and value comparators. " + DEGENERATE, "4 C10"),
  "C11": ("exploration", "deterministic simulation of the persistence boundary: checkpoint, crash-restart into a fresh container, forked drains (durability round trip)",
          "All 21 kinds under seeded histories with checkpoint and crash-restart as generated operations: at every checkpoint ToJSON must be valid JSON of the right top-level kind and the same document (token sequence; multiset for hash kinds) as json.Marshal(container); at every restart the document is reloaded (FromJSON / UnmarshalJSON / json.Unmarshal) into a fresh container of the same configuration which must equal the model and the live container (size, content, order) and drain (Pop/Dequeue) like the live one; the run then continues on the restarted container; drains are compared with full element identity; documents returned by ToJSON are held and must not change later; one run in six uses struct, map, slice, pointer and any values in the key-value containers. Ring capacities 1-9 incl. wrapped and partial states, B-tree orders to 256, int and string keys, values textually equal to keys. Sampled.", "4 C11"),
- "C12": ("fault_enumeration", "deterministic simulation with fault injection on the snapshot store (14 fault kinds on the bytes between ToJSON and FromJSON), thorough tier enumerates every truncation offset",
+ "C12": ("fault_enumeration", "deterministic simulation with fault injection on the snapshot store (16 fault kinds on the bytes between ToJSON and FromJSON), thorough tier enumerates every truncation offset",
          "Loads onto live containers with arbitrary prior content of bytes that are intact, stale (lost write), of the wrong document kind, torn, bit-flipped, structurally overwritten, span-dropped/duplicated/swapped, garbage-appended, zero-filled, wrongly typed at an element, duplicated, re-encoded (whitespace, \\u escapes) or partially-structured. Error => observable state (all observers + ToJSON) identical to before; success => content equals what a reference decoder (encoding/json into plain Go values + the kind's normalisation) says the bytes denote, success on invalid JSON is a violation; afterwards the run continues under the C01-C06/C09/C10/C15 oracles. The thorough tier additionally enumerates, for a snapshot, every truncation offset, every single-bit flip and every single-byte structural overwrite (fault enumeration); everything else is sampled, including loads onto containers of 1000-2200 elements.", "4 C12, 3.5"),
  "C13": ("exploration", "seeded history simulation of two sets vs set-algebra reference model, independence probes by mutation",
          "Pairs of sets of the same kind built by seeded histories (free, disjoint, nested, equal, one empty, either larger, same object as both operands); members of Intersection/Union/Difference are compared with the model, operands must be observably unchanged, then result, a and b are mutated in turn and the others must not move; TreeSet results must stay ascending under the operands' comparator after further Adds, and results are used as operands of further algebra (chaining). " + DEGENERATE, "4 C13"),
